@@ -270,3 +270,8 @@ def rules(ctx):
     # evaluates measured parameters with outcomes of the previous computation
     from . import c09
     c09.reset_completeness(ctx, "C10.reset")
+    # a measured parameter evaluates to regref.val: the value must have been stored for the right register, and a parameter that
+    # depends on a foreign / deleted register must be rejected when the operation is appended (shared with C06 / C08)
+    from . import c06 as _c06, c08 as _c08
+    ctx.shared(_c06.store)
+    ctx.shared(_c08.validation)
